@@ -27,7 +27,10 @@ def mutants():
         viol = (m.get("check_violations") or [""])[0]
         viol = re.sub(r"^violation ", "", viol)[:150].replace("|", "&#124;")
         st = (m.get("strengthening") or "").replace("|", "&#124;")
-        out.append(f"| {name} | {breaks} | {'caught' if before else 'missed'} | {'caught' if now else 'MISSED'} | {viol} | {st} |")
+        nowtxt = "retired (code rewritten by a repair)" if m.get("retired") else ("caught" if now else "MISSED")
+        if m.get("patch_rebased"):
+            st = (st + "; " if st else "") + "patch rebased onto the repaired tree"
+        out.append(f"| {name} | {breaks} | {'caught' if before else 'missed'} | {nowtxt} | {viol} | {st} |")
     return "\n".join(out), (n, c0, c1)
 
 
